@@ -449,7 +449,23 @@ static void helper_main(int rfd, int wfd) {
     int rc;
     dbh_t h;
     cfg_t c;
-    if (n != (ssize_t)sizeof(rq) || rq.op != 0) _exit(0);
+    if (n != (ssize_t)sizeof(rq) || (rq.op != 0 && rq.op != 1)) _exit(0);
+    if (rq.op == 1) {
+      /* non-destructive probe: does any other process hold a record lock on this file?
+         0 = locked by somebody, 1 = nobody holds a lock, <0 = cannot tell */
+      struct flock fl;
+      int fd = open(rq.path, O_RDWR);
+      rc = -1;
+      if (fd >= 0) {
+        memset(&fl, 0, sizeof(fl));
+        fl.l_type = F_WRLCK;
+        fl.l_whence = SEEK_SET;
+        if (fcntl(fd, F_GETLK, &fl) == 0) rc = fl.l_type == F_UNLCK ? 1 : 0;
+        close(fd);
+      }
+      if (write(wfd, &rc, sizeof(rc)) != (ssize_t)sizeof(rc)) _exit(0);
+      continue;
+    }
     cfg_default(&c);
     c.cmp_kind = rq.cmp;
     dbh_init(&h, rq.path, &c);
@@ -477,17 +493,21 @@ static void helper_start(void) {
   helper_rfd = b[0];
 }
 
-/* ask the other process to ldb_open(path) and close again; returns its status */
-static int helper_open(const char *path, int cmp, int create) {
+/* ask the other process to ldb_open(path) and close again (op 0; returns its status),
+ * or to query the kernel for a record lock on path (op 1) */
+static int helper_call(int op, const char *path, int cmp, int create) {
   hreq_t rq;
   int rc = -1;
   memset(&rq, 0, sizeof(rq));
-  rq.op = 0; rq.cmp = cmp; rq.create = create;
+  rq.op = op; rq.cmp = cmp; rq.create = create;
   snprintf(rq.path, sizeof(rq.path), "%s", path);
   if (write(helper_wfd, &rq, sizeof(rq)) != (ssize_t)sizeof(rq)) vh_fatal("helper process is gone (write)");
   if (read(helper_rfd, &rc, sizeof(rc)) != (ssize_t)sizeof(rc)) vh_fatal("helper process died while opening %s", path);
   return rc;
 }
+
+static int helper_open(const char *path, int cmp, int create) { return helper_call(0, path, cmp, create); }
+static int helper_lock_free(const char *path) { return helper_call(1, path, 0, 0); }
 
 static void helper_stop(void) {
   int st;
@@ -532,6 +552,7 @@ typedef struct ldbs_s {
   int exists;                /* a database (CURRENT) exists in dir */
   int is_open;
   int refusals_since_open;   /* refused in-process lock attempts since the handle was opened */
+  int lock_loss_reported;    /* the kernel lock of this handle was already seen released */
   char last_event[64];
   uint64_t next_vid;
 } ldbs_t;
@@ -543,8 +564,11 @@ typedef struct lk_s {
   int ndb;
   int serial;
   int abandon;
+  int lock_loss_viols;       /* the diagnosed lock-loss finding is written out once per case */
   uint8_t vbuf[4096];
 } lk_t;
+
+static int g_confirm_budget = 1, g_confirmed_case = -1;
 
 static const char *alias_names[] = {"same-path", "relative", "decorated-path", "symlink"};
 
@@ -617,6 +641,7 @@ static void lk_open(lk_t *L, ldbs_t *D) {
   D->is_open = 1;
   D->exists = 1;
   D->refusals_since_open = 0;
+  D->lock_loss_reported = 0;
   check_equal(D->h.db, &D->m, D->m.version, &mm);
   if (mm.n > 0) {
     lv(failed_before ? "contents-changed-by-failed-open" : "contents-differ-after-reopen",
@@ -732,16 +757,53 @@ static void lk_helper(lk_t *L, ldbs_t *D) {
   int rc;
   if (D->is_open) {
     ldb_verif_wait_idle(D->h.db);
+    if (D->refusals_since_open > 0) {
+      /* The kernel lock may have been dropped by a refused in-process attempt (each one
+         closes a descriptor of LOCK).  A real ldb_open from the other process would then
+         run recovery on the live directory and end this case, so the lock is first
+         queried without side effects; the real open is performed once per process to
+         confirm what the query says. */
+      char lockpath[800];
+      int fr;
+      if (D->lock_loss_reported) return;
+      snprintf(lockpath, sizeof(lockpath), "%s/LOCK", D->dir);
+      fr = helper_lock_free(lockpath);
+      vh_count("other_process_lock_queries", 1);
+      if (fr == 1) {
+        int confirmed = -1;
+        if (g_confirm_budget > 0) {
+          g_confirm_budget--;
+          confirmed = helper_open(D->dir, D->h.cfg.cmp_kind, 0);
+          vh_count("other_process_attempts", 1);
+          if (confirmed == LDB_OK) g_confirmed_case = g_case;
+        }
+        if (confirmed == -1 && L->lock_loss_viols > 0)
+          vh_count("kernel_lock_lost_repeats_not_printed", 1);
+        else if ((confirmed == -1 || confirmed == LDB_OK) && ++L->lock_loss_viols)
+          lv("second-open-succeeded-other-process-after-refused-open",
+             "%s: this process holds %s open, but after %d refused in-process lock attempts on it (second ldb_open / ldb_copy / "
+             "ldb_destroy; last event: %s) no fcntl record lock is held on %s/LOCK any more: ldb_lock_file opens LOCK, finds "
+             "(dev,ino) in its table and close()s the descriptor, which drops the record lock of the first handle (POSIX)",
+             confirmed == LDB_OK ? "another process OPENED the database with ldb_open"
+                                 : (g_confirmed_case >= 0 ? "another process sees the lock released (F_GETLK; a real ldb_open from another "
+                                                            "process was confirmed to succeed earlier in this run)"
+                                                          : "another process sees the lock released (F_GETLK)"),
+             D->base, D->refusals_since_open, D->last_event, D->base);
+        else
+          lv("lock-query-disagrees", "F_GETLK reports no lock on %s/LOCK but ldb_open from the other process returned %d", D->base, confirmed);
+        D->lock_loss_reported = 1;
+        vh_count("kernel_lock_lost_after_refusal", 1);
+        if (confirmed == LDB_OK) L->abandon = 1;   /* the other process ran recovery on the live directory */
+        return;
+      }
+      if (fr != 0) vh_fatal("lock query on %s failed", lockpath);
+    }
     rc = helper_open(D->dir, D->h.cfg.cmp_kind, 0);
     vh_count("other_process_attempts", 1);
     if (rc == LDB_OK) {
-      if (D->refusals_since_open > 0)
-        lv("second-open-succeeded-other-process-after-refused-open",
-           "another process opened %s while this process holds it open; %d in-process lock attempts on the same LOCK file "
-           "were refused since the handle was opened (last: %s) - each closes a descriptor of LOCK, which drops the "
-           "process's fcntl record lock", D->base, D->refusals_since_open, D->last_event);
-      else
-        lv("second-open-succeeded-other-process", "another process opened %s while this process holds it open", D->base);
+      lv(D->refusals_since_open > 0 ? "second-open-succeeded-other-process-after-refused-open" : "second-open-succeeded-other-process",
+         "another process opened %s while this process holds it open (%d refused in-process attempts before)", D->base,
+         D->refusals_since_open);
       L->abandon = 1;
       return;
     }
@@ -1126,7 +1188,1240 @@ static void lock_case(int caseidx) {
   free(L);
 }
 
-/* @@MODES@@ */
+/* ================================================================== */
+/* mode backup */
+
+#define BK_MAXCP 2
+#define COPY_VID_BASE (1ULL << 60)
+
+typedef struct bkcopy_s {
+  dbh_t h;
+  model_t m;
+  char dir[700];
+  char state[40];
+  uint64_t src_vid_mark;   /* highest value id the source had handed out when the backup was taken */
+} bkcopy_t;
+
+typedef struct bk_s {
+  dbh_t h;
+  model_t m;
+  vrng_t r;
+  int caseidx, steps;
+  char cdir[700], src[700];
+  uint64_t next_vid, next_cvid;
+  uint8_t *vbuf;
+  bkcopy_t *cp[BK_MAXCP];
+  int ncp;
+  int serial;
+  int abandon;
+  int writes_since_flush;
+  int flushes, compactions, backups, failed_backups, nontrivial;
+} bk_t;
+
+#define BK_MAXVAL (70 << 10)
+
+static void bk_expect_ok(bk_t *B, int rc, const char *what) {
+  if (rc != LDB_OK) {
+    lv("source-unusable", "%s on the source returned %d (%s) after %d backups", what, rc, ldb_strerror(rc), B->backups);
+    B->abandon = 1;
+  }
+}
+
+static void bk_put(bk_t *B, dbh_t *h, model_t *m, int row, uint32_t vlen, uint64_t vid) {
+  ldb_slice_t k = mrow_key(m, row), v;
+  int rc;
+  vh_fill_value(B->vbuf, vlen, vid);
+  v = ldb_slice(B->vbuf, vlen);
+  rc = ldb_put(h->db, &k, &v, NULL);
+  if (rc == LDB_OK) m_put(m, row, vid, vlen);
+  else bk_expect_ok(B, rc, "put");
+}
+
+static uint64_t bk_vid(bk_t *B) { return (B->next_vid += 2) | (vr_next(&B->r) & 1); }
+static uint64_t bk_cvid(bk_t *B) { return COPY_VID_BASE | ((B->next_cvid += 2) | (vr_next(&B->r) & 1)); }
+
+static void bk_history_step(bk_t *B) {
+  uint32_t c = vr_uniform(&B->r, 1000);
+  int row = (int)vr_uniform(&B->r, (uint32_t)B->m.nrows);
+  if (c < 520) {
+    uint32_t vlen = value_len_random(&B->r, 0);
+    if (vlen > BK_MAXVAL) vlen = BK_MAXVAL;
+    bk_put(B, &B->h, &B->m, row, vlen, bk_vid(B));
+    B->writes_since_flush++;
+  } else if (c < 640) {
+    ldb_slice_t k = mrow_key(&B->m, row);
+    int rc = ldb_del(B->h.db, &k, NULL);
+    if (rc == LDB_OK) m_del(&B->m, row); else bk_expect_ok(B, rc, "del");
+    B->writes_since_flush++;
+  } else if (c < 740) {
+    ldb_batch_t *b = ldb_batch_create();
+    int n = 1 + (int)vr_uniform(&B->r, 12), i, rc;
+    struct { int row, del; uint64_t vid; uint32_t vlen; } ups[12];
+    for (i = 0; i < n; i++) {
+      ldb_slice_t k, v;
+      ups[i].row = (int)vr_uniform(&B->r, (uint32_t)B->m.nrows);
+      k = mrow_key(&B->m, ups[i].row);
+      ups[i].del = vr_chance(&B->r, 200);
+      if (ups[i].del) { ldb_batch_del(b, &k); continue; }
+      ups[i].vlen = vr_uniform(&B->r, 6000);
+      ups[i].vid = bk_vid(B);
+      vh_fill_value(B->vbuf, ups[i].vlen, ups[i].vid);
+      v = ldb_slice(B->vbuf, ups[i].vlen);
+      ldb_batch_put(b, &k, &v);
+    }
+    rc = ldb_write(B->h.db, b, NULL);
+    if (rc == LDB_OK) {
+      for (i = 0; i < n; i++) {
+        if (ups[i].del) m_del(&B->m, ups[i].row); else m_put(&B->m, ups[i].row, ups[i].vid, ups[i].vlen);
+      }
+    } else bk_expect_ok(B, rc, "write(batch)");
+    ldb_batch_destroy(b);
+    B->writes_since_flush += n;
+  } else if (c < 900) {
+    ldb_slice_t k = mrow_key(&B->m, row), v;
+    const mver_t *e = m_get(&B->m, row, B->m.version);
+    int rc = ldb_get(B->h.db, &k, &v, NULL);
+    int want = e != NULL && e->present;
+    if ((rc == LDB_OK) != want || (rc != LDB_OK && rc != LDB_NOTFOUND) || (rc == LDB_OK && !val_ok(e, v.data, v.size))) {
+      lv(B->backups ? "source-changed-by-backup" : "source-get-wrong", "get('%s') on the source: rc=%d, expected %s (after %d backups)",
+         vh_esc(k.data, k.size), rc, want ? "a value" : "absent", B->backups);
+      B->abandon = 1;
+    }
+    if (rc == LDB_OK) ldb_free(v.data);
+  } else if (c < 940) {
+    bk_expect_ok(B, ldb_test_compact_memtable(B->h.db), "flush");
+    B->flushes++;
+    B->writes_since_flush = 0;
+  } else if (c < 990) {
+    int level = (int)vr_uniform(&B->r, 5);
+    ldb_test_compact_range(B->h.db, level, NULL, NULL);
+    B->compactions++;
+  } else {
+    ldb_compact(B->h.db, NULL, NULL);
+    B->compactions++;
+    B->writes_since_flush = 0;
+  }
+}
+
+static void bk_source_check(bk_t *B, const char *when) {
+  mm_t mm;
+  check_equal(B->h.db, &B->m, B->m.version, &mm);
+  if (mm.n > 0) {
+    const char *key = "source-changed-by-backup";
+    if (mm.have_vid && (mm.got_vid & COPY_VID_BASE)) key = "source-sees-backup-writes";
+    else if (B->backups == 0) key = "source-contents-wrong";
+    lv(key, "%s: the source disagrees with its model after %d backups (%d mismatches): %s", when, B->backups, mm.n, mm.first);
+    B->abandon = 1;
+  }
+}
+
+static void bk_copy_check(bk_t *B, bkcopy_t *C, const char *when) {
+  mm_t mm;
+  check_equal(C->h.db, &C->m, C->m.version, &mm);
+  if (mm.n > 0) {
+    const char *key = "backup-contents-differ";
+    /* a value the source wrote after this backup was taken? */
+    if (mm.have_vid && !(mm.got_vid & COPY_VID_BASE) && (mm.got_vid & ~1ULL) > C->src_vid_mark) key = "backup-sees-later-source-writes";
+    lv(key, "%s: backup taken in state '%s' (%s) disagrees with the model of that moment (%d mismatches): %s", when, C->state,
+       C->dir, mm.n, mm.first);
+    B->abandon = 1;
+  }
+}
+
+static void bk_copy_drop(bk_t *B, int i) {
+  bkcopy_t *C = B->cp[i];
+  dbh_destroy(&C->h);
+  m_free(&C->m);
+  rm_rf(C->dir);
+  free(C);
+  memmove(&B->cp[i], &B->cp[i + 1], (size_t)(B->ncp - i - 1) * sizeof(bkcopy_t *));
+  B->ncp--;
+}
+
+/* after ldb_backup returned OK: open the copy beside the open source and compare */
+static void bk_verify_new_copy(bk_t *B, const char *target, const char *state, uint64_t ver, uint64_t vid_mark) {
+  bkcopy_t *C = calloc(1, sizeof(bkcopy_t));
+  int rc, keep;
+  C->src_vid_mark = vid_mark;
+  snprintf(C->dir, sizeof(C->dir), "%s", target);
+  snprintf(C->state, sizeof(C->state), "%s", state);
+  model_clone(&B->m, ver, &C->m);
+  {
+    cfg_t cc = B->h.cfg;
+    if (vr_chance(&B->r, 400)) cfg_mutate_reopen(&cc, &B->r);
+    if (cc.write_buffer_size > (256 << 10)) cc.write_buffer_size = 256 << 10;
+    dbh_init(&C->h, C->dir, &cc);
+  }
+  rc = dbh_open(&C->h, 0);
+  if (rc != LDB_OK) {
+    lv("backup-not-openable", "backup taken in state '%s' does not open (source still open): %d (%s)", state, rc, ldb_strerror(rc));
+    B->abandon = 1;
+    dbh_destroy(&C->h);
+    m_free(&C->m);
+    free(C);
+    return;
+  }
+  bk_copy_check(B, C, "right after the backup");
+  vh_count("backups_verified", 1);
+  if (!B->abandon && vr_chance(&B->r, 600)) {
+    /* independence: different keys into the copy and into the source, flush + compact both */
+    int n = 2 + (int)vr_uniform(&B->r, 6), i;
+    for (i = 0; i < n && !B->abandon; i++) {
+      int row = (int)vr_uniform(&B->r, (uint32_t)B->m.nrows);
+      if (vr_chance(&B->r, 250)) {
+        ldb_slice_t k = mrow_key(&C->m, row);
+        if (ldb_del(C->h.db, &k, NULL) == LDB_OK) m_del(&C->m, row);
+      } else {
+        bk_put(B, &C->h, &C->m, row, 16 + vr_uniform(&B->r, 3000), bk_cvid(B));
+      }
+      row = (int)vr_uniform(&B->r, (uint32_t)B->m.nrows);
+      bk_put(B, &B->h, &B->m, row, 16 + vr_uniform(&B->r, 3000), bk_vid(B));
+    }
+    bk_expect_ok(B, ldb_test_compact_memtable(C->h.db), "flush(copy)");
+    bk_expect_ok(B, ldb_test_compact_memtable(B->h.db), "flush(source)");
+    if (vr_chance(&B->r, 500)) {
+      ldb_compact(C->h.db, NULL, NULL);
+      ldb_compact(B->h.db, NULL, NULL);
+    } else {
+      ldb_test_compact_range(C->h.db, 0, NULL, NULL);
+      ldb_test_compact_range(B->h.db, 0, NULL, NULL);
+    }
+    B->flushes++; B->compactions++; B->writes_since_flush = 0;
+    if (!B->abandon) bk_copy_check(B, C, "after later writes to both sides");
+    if (!B->abandon) bk_source_check(B, "after writes into a backup");
+    vh_count("cross_write_checks", 1);
+  }
+  keep = !B->abandon && B->ncp < BK_MAXCP && vr_chance(&B->r, 600);
+  if (!B->abandon && vr_chance(&B->r, 400)) {
+    /* the backup is a database in its own right: close, reopen, compare */
+    dbh_close(&C->h);
+    rc = dbh_open(&C->h, 0);
+    if (rc != LDB_OK) {
+      lv("backup-not-openable", "backup (state '%s') does not reopen: %d (%s)", C->state, rc, ldb_strerror(rc));
+      B->abandon = 1;
+      keep = 0;
+    } else {
+      bk_copy_check(B, C, "after reopening the backup");
+    }
+  }
+  if (keep && !B->abandon) {
+    B->cp[B->ncp++] = C;
+  } else {
+    dbh_destroy(&C->h);
+    m_free(&C->m);
+    rm_rf(C->dir);
+    free(C);
+  }
+}
+
+typedef struct bkthr_s { ldb_t *db; const char *target; int kind, level, rc, done; } bkthr_t;
+
+static void *bk_thread(void *arg) {
+  bkthr_t *t = arg;
+  switch (t->kind) {
+    case 0: t->rc = ldb_backup(t->db, t->target); break;
+    case 1: t->rc = ldb_test_compact_memtable(t->db); break;
+    case 2: ldb_compact(t->db, NULL, NULL); t->rc = LDB_OK; break;
+    default: ldb_test_compact_range(t->db, t->level, NULL, NULL); t->rc = LDB_OK; break;
+  }
+  __atomic_store_n(&t->done, 1, __ATOMIC_RELEASE);
+  return NULL;
+}
+
+enum { BS_ASIS, BS_IMM, BS_IMM_GATED, BS_COMPACT, BS_FAULT, BS_KINDS };
+
+static void bk_backup(bk_t *B, int how) {
+  char target[800], state[40], sig[64];
+  int ntables, levels, rc = LDB_OK, check_src = 0;
+  uint64_t ver, mark;
+  dirsnap_t before, after;
+  char diff[900];
+  snprintf(target, sizeof(target), "%s/bk-%d", B->cdir, B->serial++);
+
+  if (how == BS_IMM) {
+    /* write past the write buffer; the moment a new log file appears the old memtable
+       has become immutable - back up immediately */
+    uint64_t logs0 = iom_count(IOP_CREATE, PC_LOG), syncs0;
+    int guard = 0;
+    iom_slow(IOP_CREATE, PC_TABLE, 1500);
+    while (iom_count(IOP_CREATE, PC_LOG) == logs0 && guard++ < 400 && !B->abandon)
+      bk_put(B, &B->h, &B->m, (int)vr_uniform(&B->r, (uint32_t)B->m.nrows), 3000 + vr_uniform(&B->r, 6000), bk_vid(B));
+    syncs0 = iom_count(IOP_FSYNC, PC_TABLE);
+    ver = B->m.version; mark = B->next_vid;
+    rc = ldb_backup(B->h.db, target);
+    if (iom_count(IOP_FSYNC, PC_TABLE) > syncs0) vh_count("backups_imm_pending_flush_finished_inside_backup", 1);
+    iom_slow_clear();
+    snprintf(state, sizeof(state), "imm-pending");
+    B->writes_since_flush = 0;
+  } else if (how == BS_IMM_GATED || how == BS_COMPACT) {
+    /* park the background thread inside the MANIFEST update of a flush / compaction
+       (mutex released there) and call ldb_backup meanwhile: it has to wait */
+    pthread_t ta, tb;
+    bkthr_t A, Bt;
+    int gated = how == BS_IMM_GATED || vr_chance(&B->r, 600), g = -1, reached = 0;
+    memset(&A, 0, sizeof(A)); memset(&Bt, 0, sizeof(Bt));
+    A.db = B->h.db;
+    if (how == BS_IMM_GATED) {
+      if (B->writes_since_flush == 0) bk_put(B, &B->h, &B->m, 0, 100, bk_vid(B));
+      A.kind = 1;
+    } else {
+      A.kind = vr_chance(&B->r, 500) ? 2 : 3;
+      A.level = (int)vr_uniform(&B->r, 3);
+    }
+    ver = B->m.version; mark = B->next_vid;
+    if (gated) g = iom_gate_arm(IOP_FSYNC, PC_MANIFEST, 1);
+    pthread_create(&ta, NULL, bk_thread, &A);
+    if (gated) {
+      while (!(reached = iom_gate_reached(g)) && !__atomic_load_n(&A.done, __ATOMIC_ACQUIRE)) usleep(100);
+      if (!reached) reached = iom_gate_reached(g);
+    } else if (vr_chance(&B->r, 500)) {
+      usleep(vr_uniform(&B->r, 800));
+    }
+    Bt.db = B->h.db; Bt.target = target; Bt.kind = 0;
+    pthread_create(&tb, NULL, bk_thread, &Bt);
+    if (gated) {
+      if (reached) usleep(2000);   /* gives a non-waiting backup the time to copy a half-installed state */
+      iom_gate_clear();
+    }
+    pthread_join(tb, NULL);
+    pthread_join(ta, NULL);
+    rc = Bt.rc;
+    if (how == BS_IMM_GATED) {
+      bk_expect_ok(B, A.rc, "flush (gated)");
+      snprintf(state, sizeof(state), reached ? "imm-pending-gated" : "imm-pending");
+      B->flushes++;
+      B->writes_since_flush = 0;
+    } else {
+      snprintf(state, sizeof(state), reached ? "during-compaction-gated" : "during-compaction");
+      B->compactions++;
+    }
+    if (reached) vh_count("backups_with_background_thread_parked_in_manifest_update", 1);
+  } else {
+    if (how == BS_ASIS && vr_chance(&B->r, 500)) {
+      ldb_verif_wait_idle(B->h.db);
+      snap_take(&before, B->src);
+      check_src = 1;
+    }
+    db_shape(B->h.db, &ntables, &levels, sig, sizeof(sig));
+    snprintf(state, sizeof(state), "%s", ntables == 0 ? "memtable-only" : levels >= 2 ? "multi-level" : "one-level");
+    ver = B->m.version; mark = B->next_vid;
+    if (how == BS_FAULT) {
+      /* a failure somewhere inside the backup: nothing may be left behind */
+      static const int errs[] = {EIO, ENOSPC, EMFILE, EACCES, EDQUOT};
+      int err = errs[vr_uniform(&B->r, 5)], fk = (int)vr_uniform(&B->r, 9), relaxed = 0;
+      const char *fname;
+      uint64_t fired0;
+      ldb_verif_wait_idle(B->h.db);
+      iom_clear_roots();
+      iom_add_root(B->src);
+      iom_add_root(target);
+      iom_fault_clear();
+      fired0 = iom_fault_fired();
+      switch (fk) {
+        case 0: iom_fault_add(IOP_MKDIR, PC_DIR, 1, err, 0, IOF_CLEAN); fname = "mkdir"; break;
+        case 1: iom_fault_add(IOP_CREATE, PC_LOCK, 1, err, 0, IOF_CLEAN); fname = "create-lock"; break;
+        case 2: iom_fault_add(IOP_CREATE, vr_chance(&B->r, 500) ? PC_LOG : PC_MANIFEST, 1, err, 0, IOF_CLEAN); fname = "create-copy"; break;
+        case 3: iom_fault_add(IOP_CREATE, PC_CURRENT, 1, err, 0, IOF_CLEAN); fname = "create-current"; break;
+        case 4: iom_fault_add(IOP_WRITE, vr_chance(&B->r, 500) ? PC_LOG : PC_MANIFEST, 1, err, 0, vr_chance(&B->r, 500) ? IOF_SHORT : IOF_CLEAN); fname = "write"; break;
+        case 5: iom_fault_add(IOP_LINK, PC_TABLE, 1 + vr_uniform(&B->r, (uint32_t)(ntables > 0 ? ntables : 1)), err, 0, IOF_CLEAN); fname = "link"; break;
+        case 6: iom_fault_add(IOP_FSYNC, vr_chance(&B->r, 500) ? PC_MANIFEST : PC_CURRENT, 1, err, 0, IOF_CLEAN); fname = "fsync-file"; break;
+        case 7: iom_fault_add(IOP_READ, PC_MANIFEST, 1, err, 0, IOF_CLEAN); fname = "read-source"; break;
+        default: iom_fault_add(IOP_FSYNC, PC_DIR, 1, err, 0, IOF_CLEAN); fname = "fsync-dir"; relaxed = 1; break;
+      }
+      rc = ldb_backup(B->h.db, target);
+      iom_fault_clear();
+      iom_clear_roots();
+      iom_add_root(B->src);
+      vh_count("backup_fault_attempts", 1);
+      if (iom_fault_fired() == fired0) {
+        vh_count("backup_fault_not_fired", 1);
+      } else if (rc == LDB_OK) {
+        lv("failed-backup-reported-ok", "ldb_backup returned OK although a %s failure (errno %d) was injected", fname, err);
+        B->abandon = 1;
+        return;
+      } else {
+        dirsnap_t t;
+        char cname[64];
+        snap_take(&t, target);
+        B->failed_backups++;
+        snprintf(cname, sizeof(cname), "failed_backups_%s", fname);
+        vh_count(cname, 1);
+        vh_distinct("c20_state", "backup|%s|failed-backup-%s", state, fname);
+        if (t.exists && relaxed) {
+          /* the directory sync at the very end failed: everything had been copied; the
+             code keeps the directory.  Accept iff it is a complete backup. */
+          vh_count("failed_backup_dirsync_left_complete_copy", 1);
+          snap_free(&t);
+          snprintf(state, sizeof(state), "after-dirsync-failure");
+          bk_verify_new_copy(B, target, state, ver, mark);
+          if (!B->abandon) bk_source_check(B, "after a failed backup");
+          return;
+        }
+        if (t.exists && t.n > 0) {
+          lv("failed-backup-left-partial-target", "ldb_backup failed (%s, errno %d, rc=%d) and left %zu entries in the target (first: %s)",
+             fname, err, rc, t.n, t.e[0].rel);
+          B->abandon = 1;
+        } else if (t.exists) {
+          vh_count("failed_backup_left_empty_dir", 1);
+          rm_rf(target);
+        }
+        snap_free(&t);
+        if (!B->abandon) bk_source_check(B, "after a failed backup");
+        if (B->abandon) return;
+        /* the retry into the same path must now succeed */
+        snprintf(state, sizeof(state), "retry-after-failure");
+        rc = ldb_backup(B->h.db, target);
+      }
+    } else {
+      rc = ldb_backup(B->h.db, target);
+    }
+    if (check_src) {
+      snap_take(&after, B->src);
+      if (snap_diff(&before, &after, NULL, diff, sizeof(diff)) > 0) {
+        lv("source-changed-by-backup", "ldb_backup (state %s) changed files of the idle source: %s", state, diff);
+        B->abandon = 1;
+      }
+      snap_free(&before);
+      snap_free(&after);
+      vh_count("source_dir_unchanged_checks", 1);
+    }
+  }
+  if (B->abandon) return;
+  B->backups++;
+  vh_count("backups", 1);
+  {
+    char cname[80];
+    snprintf(cname, sizeof(cname), "backups_state_%s", state);
+    vh_count(cname, 1);
+  }
+  db_shape(B->h.db, &ntables, &levels, sig, sizeof(sig));
+  vh_distinct("c20_state", "backup|%s|L%d|mem%d", state, levels, B->writes_since_flush > 0);
+  if (how == BS_ASIS && B->writes_since_flush > 0 && levels >= 2) { B->nontrivial++; vh_count("backups_mem_and_multilevel", 1); }
+  if (rc != LDB_OK) {
+    lv("backup-failed", "ldb_backup in state '%s' (layout %s) returned %d (%s)", state, sig, rc, ldb_strerror(rc));
+    B->abandon = 1;
+    return;
+  }
+  bk_verify_new_copy(B, target, state, ver, mark);
+}
+
+static void backup_case(int caseidx) {
+  bk_t *B = calloc(1, sizeof(bk_t));
+  cfg_t cfg;
+  int rc, i, early;
+  static const size_t wbs[] = {64 << 10, 64 << 10, 128 << 10, 256 << 10};
+  double t0 = vh_now();
+  B->caseidx = caseidx;
+  vr_seed(&B->r, g_seed * 1000003ULL + (uint64_t)caseidx * 7919ULL + 22);
+  snprintf(B->cdir, sizeof(B->cdir), "%s/backup-%d", g_base, caseidx);
+  snprintf(B->src, sizeof(B->src), "%s/src", B->cdir);
+  rm_rf(B->cdir);
+  mk_dir(B->cdir);
+  cfg_random(&cfg, &B->r);
+  cfg.write_buffer_size = wbs[vr_uniform(&B->r, 4)];
+  cfg.max_file_size = 1 << 20;
+  iom_trace_reset();
+  iom_clear_roots();
+  iom_fault_clear();
+  iom_gate_clear();
+  iom_slow_clear();
+  iom_add_root(B->src);
+  m_init(&B->m, cfg.cmp_kind);
+  universe_generate(&B->m, &B->r, 40 + (int)vr_uniform(&B->r, 260));
+  B->vbuf = malloc(BK_MAXVAL + 16);
+  dbh_init(&B->h, B->src, &cfg);
+  rc = dbh_open(&B->h, 1);
+  if (rc != LDB_OK) vh_fatal("backup case %d: cannot create the source: %d", caseidx, rc);
+  B->steps = 100 + (int)vr_uniform(&B->r, 501);
+  early = vr_chance(&B->r, 700) ? 2 + (int)vr_uniform(&B->r, 10) : -1;
+  for (g_step = 0; g_step < B->steps && !B->abandon; g_step++) {
+    if (g_step == early && B->flushes == 0) {
+      /* data only in the memtable (small values so that no switch happened yet) */
+      int n = 1 + (int)vr_uniform(&B->r, 8);
+      for (i = 0; i < n; i++) bk_put(B, &B->h, &B->m, (int)vr_uniform(&B->r, (uint32_t)B->m.nrows), vr_uniform(&B->r, 300), bk_vid(B));
+      B->writes_since_flush += n;
+      bk_backup(B, vr_chance(&B->r, 850) ? BS_ASIS : BS_FAULT);
+      continue;
+    }
+    if (vr_chance(&B->r, 22)) {
+      uint32_t k = vr_uniform(&B->r, 100);
+      bk_backup(B, k < 40 ? BS_ASIS : k < 52 ? BS_IMM : k < 66 ? BS_IMM_GATED : k < 82 ? BS_COMPACT : BS_FAULT);
+      /* every now and then a kept copy is checked again while the source has moved on */
+      if (!B->abandon && B->ncp > 0 && vr_chance(&B->r, 500))
+        bk_copy_check(B, B->cp[vr_uniform(&B->r, (uint32_t)B->ncp)], "later, the source moved on");
+      if (!B->abandon && B->ncp == BK_MAXCP && vr_chance(&B->r, 500)) bk_copy_drop(B, 0);
+    } else {
+      bk_history_step(B);
+    }
+    if (g_step % 100 == 99 && !B->abandon) bk_source_check(B, "periodic");
+  }
+  if (!B->abandon && B->backups == 0) bk_backup(B, BS_ASIS);
+  /* epilogue */
+  if (!B->abandon) bk_source_check(B, "final");
+  while (B->ncp > 0) {
+    if (!B->abandon) bk_copy_check(B, B->cp[0], "final, later than all source writes");
+    bk_copy_drop(B, 0);
+  }
+  dbh_close(&B->h);
+  if (!B->abandon) {
+    /* ldb_copy of the closed source */
+    char dst[800], diff[900];
+    dirsnap_t before, after;
+    dbh_t h2;
+    mm_t mm;
+    snprintf(dst, sizeof(dst), "%s/final-copy", B->cdir);
+    snap_take(&before, B->src);
+    rc = ldb_copy(B->src, dst, ldb_dbopt_default);
+    snap_take(&after, B->src);
+    vh_count("copies_of_closed_db", 1);
+    if (rc != LDB_OK) {
+      lv("backup-failed", "ldb_copy of the closed source returned %d (%s)", rc, ldb_strerror(rc));
+    } else {
+      if (snap_diff(&before, &after, NULL, diff, sizeof(diff)) > 0)
+        lv("source-changed-by-backup", "ldb_copy changed the closed source: %s", diff);
+      dbh_init(&h2, dst, &cfg);
+      rc = dbh_open(&h2, 0);
+      if (rc != LDB_OK) lv("backup-not-openable", "ldb_copy of the closed source does not open: %d (%s)", rc, ldb_strerror(rc));
+      else {
+        check_equal(h2.db, &B->m, B->m.version, &mm);
+        if (mm.n > 0) lv("backup-contents-differ", "ldb_copy of the closed source: %d mismatches: %s", mm.n, mm.first);
+      }
+      dbh_destroy(&h2);
+      vh_distinct("c20_state", "backup|closed|copy");
+    }
+    snap_free(&before);
+    snap_free(&after);
+    /* and the source is still a usable database */
+    rc = dbh_open(&B->h, 0);
+    if (rc != LDB_OK) lv("source-unusable", "the source does not reopen after ldb_copy: %d (%s)", rc, ldb_strerror(rc));
+    else bk_source_check(B, "after reopening the source");
+  }
+  vh_count("cases", 1);
+  vh_count("steps", (uint64_t)g_step);
+  vh_count("flushes", (uint64_t)B->flushes);
+  vh_count("manual_compactions", (uint64_t)B->compactions);
+  vh_count("engine_compactions", B->h.log.compacting);
+  if (B->nontrivial > 0) vh_count("cases_with_nontrivial_backup", 1);
+  if (caseidx % 16 == 0 || B->abandon)
+    vh_sample("C20", "backup case %d seed %llu: cfg=%s keys=%zu steps=%d backups=%d failed_backups=%d flushes=%d manual_compactions=%d "
+              "engine_compactions=%llu%s wall=%.2fs", caseidx, (unsigned long long)g_seed, cfg_id(&cfg), B->m.nrows, g_step,
+              B->backups, B->failed_backups, B->flushes, B->compactions, (unsigned long long)B->h.log.compacting,
+              B->abandon ? " (abandoned after a violation)" : "", vh_now() - t0);
+  dbh_destroy(&B->h);
+  iom_gate_clear();
+  iom_slow_clear();
+  iom_fault_clear();
+  iom_clear_roots();
+  rm_rf(B->cdir);
+  m_free(&B->m);
+  free(B->vbuf);
+  free(B);
+}
+
+/* ================================================================== */
+/* shared: create and fill a small database to one of three shapes, close it */
+
+enum { FILL_EMPTY, FILL_MEM, FILL_FLUSHED, FILL_MULTI, FILL_KINDS };
+static const char *fill_names[] = {"empty", "memtable-only", "flushed", "multi-level"};
+
+/* h is initialised and open; writes through it and records into m */
+static void fill_db(ldb_t *db, model_t *m, vrng_t *r, int fill, uint64_t *next_vid) {
+  static uint8_t vbuf[8192];
+  int rounds = fill == FILL_MULTI ? 3 : 1, round, i;
+  if (fill == FILL_EMPTY) return;
+  for (round = 0; round < rounds; round++) {
+    int n = 5 + (int)vr_uniform(r, 40);
+    for (i = 0; i < n; i++) {
+      int row = (int)vr_uniform(r, (uint32_t)m->nrows);
+      ldb_slice_t k = mrow_key(m, row), v;
+      if (vr_chance(r, 150)) {
+        if (ldb_del(db, &k, NULL) != LDB_OK) vh_fatal("fill: del failed");
+        m_del(m, row);
+      } else {
+        uint32_t len = vr_uniform(r, 4) == 0 ? vr_uniform(r, 8000) : vr_uniform(r, 300);
+        uint64_t vid = (*next_vid += 2) | (vr_next(r) & 1);
+        vh_fill_value(vbuf, len, vid);
+        v = ldb_slice(vbuf, len);
+        if (ldb_put(db, &k, &v, NULL) != LDB_OK) vh_fatal("fill: put failed");
+        m_put(m, row, vid, len);
+      }
+    }
+    if (fill == FILL_FLUSHED || (fill == FILL_MULTI && round < rounds - 1) || (fill == FILL_MULTI && vr_chance(r, 500))) {
+      if (ldb_test_compact_memtable(db) != LDB_OK) vh_fatal("fill: flush failed");
+      if (fill == FILL_MULTI && round == 0) {
+        ldb_test_compact_range(db, 0, NULL, NULL);
+        ldb_test_compact_range(db, 1, NULL, NULL);
+      }
+    }
+  }
+}
+
+/* ================================================================== */
+/* mode destroy */
+
+typedef struct seeded_s {
+  char rel[200];
+  int owned_name;     /* the name is one lcdb claims (must disappear); otherwise foreign (must survive) */
+} seeded_t;
+
+typedef struct ds_s {
+  vrng_t r;
+  char cdir[700], dir[700];
+  seeded_t seeded[64];
+  int nseeded;
+  int lost_kind;      /* 0 none, 1 foreign only, 2 lcdb-named + foreign without CURRENT, 3 lcdb-named with CURRENT,
+                         4 lcdb-named files only (no CURRENT): lost/ itself goes */
+} ds_t;
+
+static void ds_note(ds_t *S, const char *rel, int owned) {
+  snprintf(S->seeded[S->nseeded].rel, sizeof(S->seeded[0].rel), "%s", rel);
+  S->seeded[S->nseeded].owned_name = owned;
+  S->nseeded++;
+}
+
+static void ds_file(ds_t *S, const char *rel, int owned) {
+  char p[1000];
+  snprintf(p, sizeof(p), "%s/%s", S->dir, rel);
+  write_junk(p, &S->r, vr_uniform(&S->r, 3) == 0 ? 0 : 1 + vr_uniform(&S->r, 3000));
+  ds_note(S, rel, owned);
+}
+
+static void ds_seed_foreign(ds_t *S, int phase) {
+  /* phase 0: before the database is created; 1: after it was closed */
+  static const char *names[] = {"notes.txt", "000012.bak", "MANIFEST", "MANIFEST-abc", "12.ldb.tmp", "LOG.old.1",
+                                "CURRENT.bak", ".hidden", "MANIFEST-", "000007.ldbx", "LOCK.bak", "x000003.log"};
+  char p[1000];
+  size_t i;
+  for (i = 0; i < sizeof(names) / sizeof(names[0]); i++) {
+    if ((int)(i % 2) == phase && vr_chance(&S->r, 800)) ds_file(S, names[i], 0);
+  }
+  if (phase == 0) {
+    if (vr_chance(&S->r, 700)) {
+      snprintf(p, sizeof(p), "%s/sub", S->dir); mk_dir(p); ds_note(S, "sub", 0);
+      ds_file(S, "sub/000005.ldb", 0);
+      ds_file(S, "sub/readme", 0);
+      if (vr_chance(&S->r, 500)) ds_file(S, "sub/CURRENT", 0);
+    }
+    if (vr_chance(&S->r, 700)) {
+      snprintf(p, sizeof(p), "%s/outlink", S->dir);
+      if (symlink("../outside.txt", p) != 0) vh_fatal("symlink failed");
+      ds_note(S, "outlink", 0);
+    }
+  } else {
+    S->lost_kind = (int)vr_uniform(&S->r, 5);
+    if (S->lost_kind > 0) {
+      snprintf(p, sizeof(p), "%s/lost", S->dir); mk_dir(p);
+      if (S->lost_kind != 4) {
+        ds_file(S, "lost/foreign.txt", 0);
+        if (vr_chance(&S->r, 500)) ds_file(S, "lost/000031.bak", 0);
+      }
+      if (S->lost_kind >= 2) {
+        /* what repair leaves behind: lcdb-named files */
+        int keep = S->lost_kind == 3;   /* with a CURRENT inside, destroy must not touch lost/ at all */
+        ds_file(S, "lost/000021.ldb", !keep);
+        ds_file(S, "lost/000022.log", !keep);
+        if (vr_chance(&S->r, 500)) ds_file(S, "lost/MANIFEST-000020", !keep);
+        if (vr_chance(&S->r, 500)) ds_file(S, "lost/000023.sst", !keep);
+        if (keep) ds_file(S, "lost/CURRENT", 0);
+      }
+    }
+    /* stale files under names the database owns */
+    if (vr_chance(&S->r, 500)) ds_file(S, "000900.ldb", 1);
+    if (vr_chance(&S->r, 500)) ds_file(S, "000901.sst", 1);
+    if (vr_chance(&S->r, 500)) ds_file(S, "000902.dbtmp", 1);
+    if (vr_chance(&S->r, 500)) ds_file(S, "000903.log", 1);
+    if (vr_chance(&S->r, 300)) ds_file(S, "MANIFEST-000904", 1);
+    if (vr_chance(&S->r, 300)) ds_file(S, "LOG.old", 1);
+    if (vr_chance(&S->r, 400)) {
+      /* an owned NAME that is a symlink to an outside file: the link goes, the file stays */
+      snprintf(p, sizeof(p), "%s/000777.ldb", S->dir);
+      if (symlink("../outside2.txt", p) != 0) vh_fatal("symlink failed");
+      ds_note(S, "000777.ldb", 1);
+    }
+  }
+}
+
+static const seeded_t *ds_seeded(const ds_t *S, const char *rel) {
+  int i;
+  for (i = 0; i < S->nseeded; i++) if (strcmp(S->seeded[i].rel, rel) == 0) return &S->seeded[i];
+  return NULL;
+}
+
+static void destroy_case(int caseidx) {
+  ds_t *S = calloc(1, sizeof(ds_t));
+  dirsnap_t before, after, out_before, out_after;
+  char p[1000], diff[900];
+  int variant, fill = 0, default_logger = 0, rc, i, foreign_left = 0, nviol0 = vh_nviolations();
+  size_t k;
+  cfg_t cfg;
+  vr_seed(&S->r, g_seed * 1000003ULL + (uint64_t)caseidx * 7919ULL + 33);
+  snprintf(S->cdir, sizeof(S->cdir), "%s/destroy-%d", g_base, caseidx);
+  snprintf(S->dir, sizeof(S->dir), "%s/db", S->cdir);
+  rm_rf(S->cdir);
+  mk_dir(S->cdir);
+  iom_clear_roots();
+  snprintf(p, sizeof(p), "%s/outside.txt", S->cdir); write_junk(p, &S->r, 500);
+  snprintf(p, sizeof(p), "%s/outside2.txt", S->cdir); write_junk(p, &S->r, 700);
+  cfg_random(&cfg, &S->r);
+  /* variant: 0 = directory does not exist, 1 = only foreign files (no database), 2.. = database */
+  variant = (int)vr_uniform(&S->r, 12);
+  if (variant == 0) {
+    /* nothing */
+  } else {
+    mk_dir(S->dir);
+    if (variant == 1 || vr_chance(&S->r, 600)) ds_seed_foreign(S, 0);
+    if (variant >= 2) {
+      dbh_t h;
+      model_t m;
+      uint64_t nv = 0;
+      fill = (int)vr_uniform(&S->r, FILL_KINDS);
+      default_logger = vr_chance(&S->r, 350);
+      m_init(&m, cfg.cmp_kind);
+      universe_generate(&m, &S->r, 20 + (int)vr_uniform(&S->r, 60));
+      if (default_logger) {
+        /* LOG and LOG.old are files the database owns */
+        xopt_t x;
+        ldb_t *db = NULL;
+        int round;
+        for (round = 0; round < 2; round++) {
+          xopt_make(&x, &cfg, cfg.cmp_kind, 1, 0, 0, 1);
+          rc = ldb_open(S->dir, &x.o, &db);
+          if (rc != LDB_OK) vh_fatal("destroy case %d: cannot create database: %d", caseidx, rc);
+          if (round == 0) fill_db(db, &m, &S->r, fill, &nv);
+          ldb_close(db);
+          xopt_free(&x);
+        }
+      } else {
+        dbh_init(&h, S->dir, &cfg);
+        rc = dbh_open(&h, 1);
+        if (rc != LDB_OK) vh_fatal("destroy case %d: cannot create database: %d", caseidx, rc);
+        fill_db(h.db, &m, &S->r, fill, &nv);
+        if (vr_chance(&S->r, 300)) { dbh_close(&h); if (dbh_open(&h, 0) != LDB_OK) vh_fatal("reopen failed"); }
+        dbh_destroy(&h);
+      }
+      m_free(&m);
+      ds_seed_foreign(S, 1);
+    }
+  }
+  snap_take(&before, S->dir);
+  snap_take(&out_before, S->cdir);
+  rc = ldb_destroy(S->dir, ldb_dbopt_default);
+  snap_take(&after, S->dir);
+  vh_count("destroys", 1);
+  if (rc != LDB_OK)
+    lv("destroy-failed", "ldb_destroy returned %d (%s); variant=%d fill=%s lost_kind=%d", rc, ldb_strerror(rc), variant,
+       fill_names[fill], S->lost_kind);
+  /* every entry that existed: foreign -> identical; owned -> gone */
+  for (k = 0; k < before.n; k++) {
+    const snapent_t *e = &before.e[k], *a = snap_find(&after, e->rel);
+    const seeded_t *sd = ds_seeded(S, e->rel);
+    int foreign;
+    if (strcmp(e->rel, "lost") == 0) continue;   /* the directory itself: see below */
+    foreign = sd != NULL && !sd->owned_name;
+    if (foreign) {
+      foreign_left++;
+      vh_count("foreign_entries_checked", 1);
+      if (a == NULL)
+        lv("destroy-removed-foreign-file", "ldb_destroy removed the foreign entry '%s' (%c, %llu bytes); lost_kind=%d", e->rel, e->kind,
+           (unsigned long long)e->size, S->lost_kind);
+      else if (a->kind != e->kind || a->size != e->size || a->hash != e->hash)
+        lv("destroy-removed-foreign-file", "ldb_destroy altered the foreign entry '%s'", e->rel);
+    } else {
+      vh_count("owned_entries_checked", 1);
+      if (a != NULL)
+        lv("destroy-left-owned-file", "after ldb_destroy '%s' (%s) is still there; variant=%d fill=%s lost_kind=%d", e->rel,
+           sd ? "seeded under an lcdb name" : "created by the database", variant, fill_names[fill], S->lost_kind);
+    }
+  }
+  for (k = 0; k < after.n; k++)
+    if (snap_find(&before, after.e[k].rel) == NULL)
+      lv("destroy-left-owned-file", "ldb_destroy created '%s' and left it behind", after.e[k].rel);
+  /* lost/: removed exactly when it became empty and had no CURRENT */
+  if (S->lost_kind > 0) {
+    const snapent_t *l = snap_find(&after, "lost");
+    if (l == NULL && S->lost_kind != 4)
+      lv("destroy-removed-foreign-file", "ldb_destroy removed the sub-directory lost/ although it holds foreign files (lost_kind=%d)", S->lost_kind);
+    if (l != NULL && S->lost_kind == 4)
+      lv("destroy-left-owned-file", "lost/ held only lcdb-named files and no CURRENT, yet the (empty) directory is still there");
+    vh_distinct("c20_state", "destroy|lost%d|%s", S->lost_kind, fill_names[fill]);
+  }
+  /* the directory itself: gone iff nothing foreign was in it */
+  if (before.exists) {
+    if (foreign_left == 0 && (S->lost_kind == 0 || S->lost_kind == 4) && after.exists)
+      lv("destroy-left-owned-file", "the database directory still exists after ldb_destroy although nothing foreign was in it (%zu entries)", after.n);
+    if ((foreign_left > 0 || (S->lost_kind > 0 && S->lost_kind != 4)) && !after.exists)
+      lv("destroy-removed-foreign-file", "the directory with %d foreign entries is gone", foreign_left);
+  } else if (after.exists) {
+    lv("destroy-left-owned-file", "ldb_destroy of a non-existent directory created it");
+  }
+  /* nothing outside the directory changed (targets of symlinks!) */
+  snap_take(&out_after, S->cdir);
+  {
+    int nd = 0;
+    for (k = 0; k < out_before.n; k++) {
+      const snapent_t *e = &out_before.e[k], *a;
+      if (strncmp(e->rel, "db/", 3) == 0 || strcmp(e->rel, "db") == 0) continue;
+      a = snap_find(&out_after, e->rel);
+      if (a == NULL || a->size != e->size || a->hash != e->hash) {
+        nd++;
+        lv("destroy-removed-foreign-file", "ldb_destroy %s '%s' OUTSIDE the database directory", a ? "altered" : "removed", e->rel);
+      }
+      vh_count("foreign_entries_checked", 1);
+    }
+    (void)nd;
+  }
+  /* a second destroy is a no-op that reports OK */
+  {
+    dirsnap_t again;
+    rc = ldb_destroy(S->dir, ldb_dbopt_default);
+    snap_take(&again, S->dir);
+    if (rc != LDB_OK) lv("destroy-failed", "second ldb_destroy returned %d (%s)", rc, ldb_strerror(rc));
+    if (snap_diff(&after, &again, NULL, diff, sizeof(diff)) > 0)
+      lv("destroy-removed-foreign-file", "second ldb_destroy changed the directory: %s", diff);
+    snap_free(&again);
+    vh_count("destroys", 1);
+  }
+  /* the place is usable for a new database, foreign files and all */
+  if (vh_nviolations() == nviol0 && vr_chance(&S->r, 500)) {
+    dbh_t h;
+    cfg_t c2;
+    cfg_default(&c2);
+    dbh_init(&h, S->dir, &c2);
+    rc = dbh_open(&h, 1);
+    if (rc != LDB_OK) lv("open-after-destroy-failed", "creating a database where one was destroyed returned %d (%s)", rc, ldb_strerror(rc));
+    else {
+      ldb_slice_t k1 = ldb_string("a"), v;
+      if (ldb_get(h.db, &k1, &v, NULL) == LDB_OK) { ldb_free(v.data); lv("destroy-left-owned-file", "the new database is not empty"); }
+    }
+    dbh_destroy(&h);
+    vh_count("recreate_after_destroy", 1);
+  }
+  vh_count("cases", 1);
+  vh_count("steps", 3);
+  vh_distinct("c20_state", "destroy|v%d|%s|log%d|foreign%d", variant > 2 ? 2 : variant, fill_names[fill], default_logger, foreign_left > 0);
+  if (caseidx % 16 == 0 || vh_nviolations() > nviol0)
+    vh_sample("C20", "destroy case %d seed %llu: variant=%d fill=%s default_logger=%d lost_kind=%d entries_before=%zu foreign=%d after=%zu dir_exists_after=%d",
+              caseidx, (unsigned long long)g_seed, variant, fill_names[fill], default_logger, S->lost_kind, before.n, foreign_left,
+              after.n, after.exists);
+  (void)i;
+  snap_free(&before); snap_free(&after); snap_free(&out_before); snap_free(&out_after);
+  rm_rf(S->cdir);
+  free(S);
+}
+
+/* ================================================================== */
+/* mode cmp */
+
+static int ignore_logs(const char *rel) { return strcmp(rel, "LOG") == 0 || strcmp(rel, "LOG.old") == 0; }
+
+static void cmp_case(int caseidx) {
+  vrng_t r;
+  char cdir[700], dir[700], diff[900];
+  cfg_t cfg;
+  model_t m;
+  uint64_t nv = 0;
+  int A = caseidx % CMP_KINDS, fill = 1 + (caseidx / CMP_KINDS) % 3, default_logger = (caseidx / 9) % 2;
+  int rc, b, nviol0 = vh_nviolations();
+  ldb_t *db = NULL;
+  xopt_t x;
+  dirsnap_t before, after;
+  mm_t mm;
+  vr_seed(&r, g_seed * 1000003ULL + (uint64_t)caseidx * 7919ULL + 44);
+  snprintf(cdir, sizeof(cdir), "%s/cmp-%d", g_base, caseidx);
+  snprintf(dir, sizeof(dir), "%s/db", cdir);
+  rm_rf(cdir);
+  mk_dir(cdir);
+  iom_clear_roots();
+  cfg_random(&cfg, &r);
+  cfg.cmp_kind = A;
+  m_init(&m, A);
+  universe_generate(&m, &r, 20 + (int)vr_uniform(&r, 80));
+  xopt_make(&x, &cfg, A, 1, 0, 0, default_logger);
+  rc = ldb_open(dir, &x.o, &db);
+  if (rc != LDB_OK) vh_fatal("cmp case %d: cannot create: %d", caseidx, rc);
+  fill_db(db, &m, &r, fill, &nv);
+  ldb_close(db);
+  xopt_free(&x);
+  if (vr_chance(&r, 300)) {
+    /* one clean reopen first, so that the MANIFEST was rewritten at least once */
+    xopt_make(&x, &cfg, A, 0, 0, 0, default_logger);
+    rc = ldb_open(dir, &x.o, &db);
+    if (rc != LDB_OK) vh_fatal("cmp case %d: clean reopen failed: %d", caseidx, rc);
+    ldb_close(db);
+    xopt_free(&x);
+  }
+  for (b = 1; b < CMP_KINDS; b++) {
+    int Bk = (A + b) % CMP_KINDS;
+    cfg_t c2 = cfg;
+    if (vr_chance(&r, 500)) cfg_mutate_reopen(&c2, &r);
+    snap_take(&before, dir);
+    xopt_make(&x, &c2, Bk, (int)vr_uniform(&r, 2), 0, (int)vr_uniform(&r, 2), default_logger);
+    db = NULL;
+    rc = ldb_open(dir, &x.o, &db);
+    vh_count("comparator_pairs", 1);
+    vh_distinct("c20_state", "cmp|%s|A%d-B%d-log%d", fill_names[fill], A, Bk, default_logger);
+    if (rc == LDB_OK) {
+      lv("comparator-mismatch-accepted", "database created with %s (%s) was opened with %s: ldb_open returned OK", m_comparator(A)->name,
+         fill_names[fill], m_comparator(Bk)->name);
+      ldb_close(db);
+    } else {
+      vh_count("comparator_mismatch_refused", 1);
+    }
+    xopt_free(&x);
+    snap_take(&after, dir);
+    if (snap_diff(&before, &after, ignore_logs, diff, sizeof(diff)) > 0)
+      lv("comparator-mismatch-modified-files", "ldb_open with %s on a %s database (%s, rc=%d) changed the directory: %s",
+         m_comparator(Bk)->name, m_comparator(A)->name, fill_names[fill], rc, diff);
+    if (!default_logger && (snap_find(&after, "LOG") != NULL || snap_find(&after, "LOG.old") != NULL))
+      lv("comparator-mismatch-modified-files", "LOG file appeared although a logger was supplied");
+    snap_free(&before);
+    snap_free(&after);
+    if (vh_nviolations() > nviol0) break;
+  }
+  /* the right comparator still sees everything */
+  xopt_make(&x, &cfg, A, 0, 0, (int)vr_uniform(&r, 2), default_logger);
+  rc = ldb_open(dir, &x.o, &db);
+  if (rc != LDB_OK) {
+    if (vh_nviolations() == nviol0)
+      lv(is_lock_error(rc) ? "lock-not-released-after-failed-open" : "open-failed-after-failed-open",
+         "open with the creating comparator after refused mismatching opens returned %d (%s)", rc, ldb_strerror(rc));
+  } else {
+    check_equal(db, &m, m.version, &mm);
+    if (mm.n > 0 && vh_nviolations() == nviol0)
+      lv("contents-changed-by-failed-open", "after refused comparator-mismatch opens: %d mismatches: %s", mm.n, mm.first);
+    ldb_close(db);
+  }
+  xopt_free(&x);
+  vh_count("cases", 1);
+  vh_count("steps", 4);
+  if (caseidx % 16 == 0 || vh_nviolations() > nviol0)
+    vh_sample("C20", "cmp case %d seed %llu: created with %s, fill=%s, default_logger=%d, keys=%zu live=%zu, both other comparators refused=%s",
+              caseidx, (unsigned long long)g_seed, m_comparator(A)->name, fill_names[fill], default_logger, m.nrows,
+              m_count_live(&m, m.version), vh_nviolations() == nviol0 ? "yes" : "NO");
+  m_free(&m);
+  rm_rf(cdir);
+}
+
+/* ================================================================== */
+/* mode conc: backups concurrent with writers */
+
+#define CC_MAXW 4
+#define CC_MAXK 40
+#define CC_MAXB 3
+
+typedef struct ccop_s { int key; int del; uint32_t len; } ccop_t;
+
+typedef struct ccw_s {
+  struct cc_s *C;
+  int id, nkeys, nbatches;
+  uint64_t *inv, *ret;     /* stamps per batch (1-based) */
+  int begun, acked;        /* progress (atomics) */
+  int failed_rc;
+  pthread_t th;
+} ccw_t;
+
+typedef struct cc_s {
+  dbh_t h;
+  char cdir[700], src[700];
+  uint64_t seed;
+  int nw;
+  ccw_t w[CC_MAXW];
+  int total_acked;         /* atomic */
+  int total_batches;
+  int abandon;
+} cc_t;
+
+static uint64_t cc_vid(int w, int b) { return ((((uint64_t)(w + 1)) << 40) | (uint64_t)b) << 1; }
+
+static size_t cc_key(char *buf, int w, int k) {
+  if (k < 0) return (size_t)sprintf(buf, "w%d/~marker", w);
+  return (size_t)sprintf(buf, "w%d/k%03d", w, k);
+}
+
+/* the content of batch b of writer w: a pure function of (seed, w, b) */
+static int cc_gen(const cc_t *C, int w, int b, ccop_t *ops) {
+  vrng_t r;
+  int n = 0, k;
+  vr_seed(&r, C->seed ^ ((uint64_t)(w + 1) << 32) ^ (uint64_t)b * 0x9e3779b97f4a7c15ULL);
+  for (k = 0; k < C->w[w].nkeys; k++) {
+    if (!vr_chance(&r, 350)) continue;
+    ops[n].key = k;
+    ops[n].del = vr_chance(&r, 200);
+    ops[n].len = 8 + vr_uniform(&r, vr_chance(&r, 100) ? 3000 : 400);
+    n++;
+  }
+  return n;
+}
+
+static void *cc_writer(void *arg) {
+  ccw_t *W = arg;
+  cc_t *C = W->C;
+  ccop_t ops[CC_MAXK];
+  uint8_t vbuf[3100];
+  char kb[32];
+  int b, i;
+  for (b = 1; b <= W->nbatches; b++) {
+    ldb_batch_t *bt = ldb_batch_create();
+    int n = cc_gen(C, W->id, b, ops), rc;
+    ldb_slice_t k, v;
+    uint64_t vid = cc_vid(W->id, b);
+    for (i = 0; i < n; i++) {
+      k = ldb_slice(kb, cc_key(kb, W->id, ops[i].key));
+      if (ops[i].del) { ldb_batch_del(bt, &k); continue; }
+      vh_fill_value(vbuf, ops[i].len, vid);
+      v = ldb_slice(vbuf, ops[i].len);
+      ldb_batch_put(bt, &k, &v);
+    }
+    k = ldb_slice(kb, cc_key(kb, W->id, -1));
+    vh_fill_value(vbuf, 16, vid);
+    v = ldb_slice(vbuf, 16);
+    ldb_batch_put(bt, &k, &v);
+    W->inv[b] = iom_clock();
+    __atomic_store_n(&W->begun, b, __ATOMIC_SEQ_CST);
+    rc = ldb_write(C->h.db, bt, NULL);
+    W->ret[b] = iom_clock();
+    ldb_batch_destroy(bt);
+    if (rc != LDB_OK) { W->failed_rc = rc; break; }
+    __atomic_store_n(&W->acked, b, __ATOMIC_SEQ_CST);
+    __atomic_add_fetch(&C->total_acked, 1, __ATOMIC_SEQ_CST);
+  }
+  return NULL;
+}
+
+/* compare writer w's keys in db with fold(batches 1..j); returns number of mismatches */
+static int cc_check_prefix(cc_t *C, ldb_t *db, int w, int j, char *msg, size_t msgsz) {
+  ccop_t ops[CC_MAXK];
+  int last[CC_MAXK], del[CC_MAXK];
+  uint32_t len[CC_MAXK];
+  int b, i, k, bad = 0;
+  char kb[32];
+  for (k = 0; k < C->w[w].nkeys; k++) { last[k] = 0; del[k] = 1; len[k] = 0; }
+  for (b = 1; b <= j; b++) {
+    int n = cc_gen(C, w, b, ops);
+    for (i = 0; i < n; i++) { last[ops[i].key] = b; del[ops[i].key] = ops[i].del; len[ops[i].key] = ops[i].len; }
+  }
+  msg[0] = 0;
+  for (k = 0; k < C->w[w].nkeys; k++) {
+    ldb_slice_t key = ldb_slice(kb, cc_key(kb, w, k)), v;
+    int rc = ldb_get(db, &key, &v, NULL);
+    int want = last[k] > 0 && !del[k];
+    int ok;
+    if (rc == LDB_OK) {
+      ok = want && v.size == len[k] && vh_check_value(v.data, v.size, cc_vid(w, last[k]));
+      if (!ok && bad++ == 0) {
+        uint64_t gv = vh_value_vid(v.data, v.size);
+        snprintf(msg, msgsz, "key %s: expected %s (last touched by batch %d), found a value of %zu bytes written by writer %d batch %d",
+                 kb, want ? "a value" : "absent", last[k], v.size, (int)((gv >> 41) - 1), (int)((gv >> 1) & 0xffffffffffULL));
+      }
+      ldb_free(v.data);
+    } else if (rc == LDB_NOTFOUND) {
+      if (want && bad++ == 0)
+        snprintf(msg, msgsz, "key %s: expected the value of batch %d (%u bytes), found nothing", kb, last[k], len[k]);
+    } else if (bad++ == 0) {
+      snprintf(msg, msgsz, "key %s: get returned %d", kb, rc);
+    }
+  }
+  vh_count("keys_compared", (uint64_t)C->w[w].nkeys);
+  return bad;
+}
+
+/* marker of writer w in db: batch index, 0 = none, -1 = unreadable */
+static int cc_marker(ldb_t *db, int w) {
+  char kb[32];
+  ldb_slice_t key = ldb_slice(kb, cc_key(kb, w, -1)), v;
+  int rc = ldb_get(db, &key, &v, NULL), j;
+  uint64_t gv;
+  if (rc == LDB_NOTFOUND) return 0;
+  if (rc != LDB_OK) return -1;
+  gv = vh_value_vid(v.data, v.size);
+  j = (int)((gv >> 1) & 0xffffffffffULL);
+  if (v.size != 16 || (int)(gv >> 41) - 1 != w || !vh_check_value(v.data, v.size, cc_vid(w, j))) j = -1;
+  ldb_free(v.data);
+  return j;
+}
+
+/* total number of entries in db and whether every key belongs to a writer */
+static int cc_scan_count(ldb_t *db, int *foreign) {
+  ldb_iter_t *it = ldb_iterator(db, NULL);
+  int n = 0;
+  *foreign = 0;
+  for (ldb_iter_first(it); ldb_iter_valid(it); ldb_iter_next(it)) {
+    ldb_slice_t k = ldb_iter_key(it);
+    if (k.size < 4 || ((char *)k.data)[0] != 'w') (*foreign)++;
+    n++;
+  }
+  if (ldb_iter_status(it) != LDB_OK) n = -1;
+  ldb_iter_destroy(it);
+  return n;
+}
+
+static int cc_expected_count(cc_t *C, int w, int j) {
+  ccop_t ops[CC_MAXK];
+  int del[CC_MAXK], touched[CC_MAXK], b, i, k, n = j > 0 ? 1 : 0;
+  for (k = 0; k < C->w[w].nkeys; k++) { del[k] = 1; touched[k] = 0; }
+  for (b = 1; b <= j; b++) {
+    int cnt = cc_gen(C, w, b, ops);
+    for (i = 0; i < cnt; i++) { touched[ops[i].key] = 1; del[ops[i].key] = ops[i].del; }
+  }
+  for (k = 0; k < C->w[w].nkeys; k++) n += touched[k] && !del[k];
+  return n;
+}
+
+static void cc_verify_backup(cc_t *C, const char *target, int idx, uint64_t b_inv, uint64_t b_ret) {
+  dbh_t h;
+  cfg_t c = C->h.cfg;
+  int rc, w, total = 0, foreign = 0, n;
+  char msg[600];
+  dbh_init(&h, target, &c);
+  rc = dbh_open(&h, 0);
+  if (rc != LDB_OK) {
+    lv("backup-not-openable", "concurrent backup #%d does not open: %d (%s)", idx, rc, ldb_strerror(rc));
+    C->abandon = 1;
+    dbh_destroy(&h);
+    return;
+  }
+  for (w = 0; w < C->nw; w++) {
+    ccw_t *W = &C->w[w];
+    int j = cc_marker(h.db, w), lo = 0, hi = 0, b;
+    /* window from the stamps (the writer may still be running: read only finished entries) */
+    int begun = __atomic_load_n(&W->begun, __ATOMIC_SEQ_CST), acked = __atomic_load_n(&W->acked, __ATOMIC_SEQ_CST);
+    for (b = 1; b <= acked; b++) if (W->ret[b] < b_inv) lo = b;
+    for (b = 1; b <= begun; b++) if (W->inv[b] < b_ret) hi = b;
+    if (j < 0) {
+      lv("concurrent-backup-partial-batch", "backup #%d: marker of writer %d is unreadable or malformed", idx, w);
+      C->abandon = 1;
+      continue;
+    }
+    if (cc_check_prefix(C, h.db, w, j, msg, sizeof(msg)) > 0) {
+      lv("concurrent-backup-partial-batch", "backup #%d: writer %d's marker says batch %d, but its keys are not fold(1..%d): %s (window %d..%d)",
+         idx, w, j, j, msg, lo, hi);
+      C->abandon = 1;
+    }
+    if (j < lo || j > hi) {
+      lv("concurrent-backup-outside-window", "backup #%d holds batches 1..%d of writer %d; acknowledged before the backup was invoked: %d, "
+         "begun before it returned: %d", idx, j, w, lo, hi);
+      C->abandon = 1;
+    }
+    total += cc_expected_count(C, w, j);
+    vh_count("writer_prefixes_checked", 1);
+    if (j > lo) vh_count("prefixes_with_in_flight_batches", 1);
+    vh_distinct("c20_state", "conc|%s|%s", j == lo ? "exactly-acked" : j == hi ? "all-begun" : "between", hi > lo ? "window-open" : "window-tight");
+  }
+  n = cc_scan_count(h.db, &foreign);
+  if (!C->abandon && (n != total || foreign)) {
+    lv("concurrent-backup-partial-batch", "backup #%d: scan shows %d entries (%d not of any writer), the per-writer prefixes account for %d", idx, n, foreign, total);
+    C->abandon = 1;
+  }
+  dbh_destroy(&h);
+}
+
+static void conc_case(int caseidx) {
+  cc_t *C = calloc(1, sizeof(cc_t));
+  vrng_t r;
+  cfg_t cfg;
+  int rc, w, nb, i;
+  double t0 = vh_now();
+  int thresholds[CC_MAXB];
+  vr_seed(&r, g_seed * 1000003ULL + (uint64_t)caseidx * 7919ULL + 55);
+  C->seed = vr_next(&r);
+  snprintf(C->cdir, sizeof(C->cdir), "%s/conc-%d", g_base, caseidx);
+  snprintf(C->src, sizeof(C->src), "%s/src", C->cdir);
+  rm_rf(C->cdir);
+  mk_dir(C->cdir);
+  cfg_random(&cfg, &r);
+  cfg.cmp_kind = CMP_BYTEWISE;
+  cfg.write_buffer_size = 64 << 10;
+  cfg.max_file_size = 1 << 20;
+  iom_trace_reset();
+  iom_clear_roots();
+  iom_fault_clear();
+  iom_gate_clear();
+  iom_add_root(C->src);
+  dbh_init(&C->h, C->src, &cfg);
+  rc = dbh_open(&C->h, 1);
+  if (rc != LDB_OK) vh_fatal("conc case %d: cannot create: %d", caseidx, rc);
+  C->nw = 2 + (int)vr_uniform(&r, 3);
+  for (w = 0; w < C->nw; w++) {
+    ccw_t *W = &C->w[w];
+    W->C = C; W->id = w;
+    W->nkeys = 8 + (int)vr_uniform(&r, CC_MAXK - 8);
+    W->nbatches = 50 + (int)vr_uniform(&r, 251);
+    W->inv = calloc((size_t)W->nbatches + 2, sizeof(uint64_t));
+    W->ret = calloc((size_t)W->nbatches + 2, sizeof(uint64_t));
+    C->total_batches += W->nbatches;
+  }
+  nb = 1 + (int)vr_uniform(&r, CC_MAXB);
+  for (i = 0; i < nb; i++) thresholds[i] = (int)vr_uniform(&r, (uint32_t)C->total_batches);
+  for (i = 0; i < nb; i++) {   /* ascending */
+    int j2;
+    for (j2 = i + 1; j2 < nb; j2++) if (thresholds[j2] < thresholds[i]) { int t = thresholds[i]; thresholds[i] = thresholds[j2]; thresholds[j2] = t; }
+  }
+  iom_delay(g_seed * 31 + (uint64_t)caseidx, 200, 300);
+  for (w = 0; w < C->nw; w++) pthread_create(&C->w[w].th, NULL, cc_writer, &C->w[w]);
+  for (i = 0; i < nb && !C->abandon; i++) {
+    char target[800];
+    uint64_t b_inv, b_ret;
+    uint64_t c0 = C->h.log.compacting + C->h.log.level0_started;
+    int running = 0;
+    /* wait for the chosen amount of progress (or for the writers to finish) */
+    for (;;) {
+      int done = 1;
+      if (__atomic_load_n(&C->total_acked, __ATOMIC_SEQ_CST) >= thresholds[i]) break;
+      for (w = 0; w < C->nw; w++)
+        if (__atomic_load_n(&C->w[w].acked, __ATOMIC_SEQ_CST) < C->w[w].nbatches && C->w[w].failed_rc == 0) done = 0;
+      if (done) break;
+      usleep(50);
+    }
+    for (w = 0; w < C->nw; w++) running += __atomic_load_n(&C->w[w].acked, __ATOMIC_SEQ_CST) < C->w[w].nbatches;
+    snprintf(target, sizeof(target), "%s/bk-%d", C->cdir, i);
+    b_inv = iom_clock();
+    rc = ldb_backup(C->h.db, target);
+    b_ret = iom_clock();
+    vh_count("backups", 1);
+    vh_count(running ? "backups_with_writers_running" : "backups_after_writers_finished", 1);
+    if (C->h.log.compacting + C->h.log.level0_started > c0) vh_count("backups_state_during-compaction", 1);
+    if (rc != LDB_OK) {
+      lv("backup-failed", "ldb_backup concurrent with %d running writers returned %d (%s)", running, rc, ldb_strerror(rc));
+      C->abandon = 1;
+      break;
+    }
+    iom_pause(1);   /* verification I/O is not delayed */
+    cc_verify_backup(C, target, i, b_inv, b_ret);
+    iom_pause(-1);
+    rm_rf(target);
+  }
+  for (w = 0; w < C->nw; w++) pthread_join(C->w[w].th, NULL);
+  iom_delay(0, 0, 0);
+  /* the source kept working: everything every writer wrote is there */
+  for (w = 0; w < C->nw && !C->abandon; w++) {
+    char msg[600];
+    ccw_t *W = &C->w[w];
+    if (W->failed_rc != 0) {
+      lv("source-unusable", "ldb_write of writer %d batch %d returned %d (%s) while backups were taken", w, W->acked + 1, W->failed_rc,
+         ldb_strerror(W->failed_rc));
+      continue;
+    }
+    if (cc_marker(C->h.db, w) != W->nbatches || cc_check_prefix(C, C->h.db, w, W->nbatches, msg, sizeof(msg)) > 0)
+      lv("source-changed-by-backup", "after %d concurrent backups the source does not hold all %d batches of writer %d: %s", nb,
+         W->nbatches, w, msg);
+  }
+  vh_count("cases", 1);
+  vh_count("steps", (uint64_t)C->total_batches);
+  vh_count("writer_batches", (uint64_t)C->total_batches);
+  vh_count("engine_compactions", C->h.log.compacting);
+  vh_count("engine_flushes", C->h.log.level0_started);
+  if (caseidx % 16 == 0 || C->abandon)
+    vh_sample("C20", "conc case %d seed %llu: cfg=%s writers=%d batches=%d backups=%d flushes=%llu compactions=%llu%s wall=%.2fs", caseidx,
+              (unsigned long long)g_seed, cfg_id(&cfg), C->nw, C->total_batches, nb, (unsigned long long)C->h.log.level0_started,
+              (unsigned long long)C->h.log.compacting, C->abandon ? " (violation)" : "", vh_now() - t0);
+  dbh_destroy(&C->h);
+  for (w = 0; w < C->nw; w++) { free(C->w[w].inv); free(C->w[w].ret); }
+  iom_clear_roots();
+  rm_rf(C->cdir);
+  free(C);
+}
+
+
 
 /* ================================================================== */
 
@@ -1161,7 +2456,7 @@ int main(int argc, char **argv) {
     g_step = 0;
     vh_set_context("lifemon mode=%s seed=%llu case=%d", g_mode, (unsigned long long)g_seed, i);
     if (!strcmp(g_mode, "lock")) lock_case(i);
-#ifdef LIFEMON_ALL
+#if 1
     else if (!strcmp(g_mode, "backup")) backup_case(i);
     else if (!strcmp(g_mode, "destroy")) destroy_case(i);
     else if (!strcmp(g_mode, "cmp")) cmp_case(i);
